@@ -28,6 +28,7 @@ RULE = (
 )
 RULE += "; the function's result may be None for some keys"
 RULE += '; enumerated histories with a raising miss in a full cache'
+RULE += '; enumerated histories where the refresh of an expired key fails in a full cache'
 LEVEL_TEXT = (
     "Model-based history testing: every call's result is checked against predicates over the observed history (the tag "
     "of the returned object proves which invocation produced it), so wrong-key, stale, needlessly recomputed and "
@@ -298,7 +299,16 @@ def run_case(case) -> Outcome:
                 # "other keys since": calls that stored something. A call of a SYNC function that raised stored nothing (the
                 # exception propagates before anything is kept), so it does not push anybody towards the LRU end; an async
                 # call that failed did store its task
-                others = {h[0] for h in hist[j + 1 :] if h[0] != key and (is_async or h[1] is not None)}
+                # ... and it leaves that key without an entry (it was a miss, or an expired entry that the lookup dropped):
+                # earlier accesses of that key do not count any more
+                others = set()
+                for h in hist[j + 1 :]:
+                    if h[0] == key:
+                        continue
+                    if is_async or h[1] is not None:
+                        others.add(h[0])
+                    else:
+                        others.discard(h[0])
                 age = now - hist[j][2]
                 fresh = exp is None or age < exp
                 if exp is not None and age == exp:
@@ -452,6 +462,17 @@ def enumerate_cases(tier):
             for e in (None, 5):
                 yield {"variant": v, "limit": l, "exp": e, "ops": [*fill, boom, *fill]}
                 yield {"variant": v, "limit": l, "exp": e, "ops": [*fill, boom, boom, *reversed(fill), dict(boom, **{"raise": False}), fill[-1]]}
+    # the refresh of an EXPIRED key fails while the cache is full (after the expired key was hit / was not hit in between):
+    # the dead entry is gone, so a new key takes ITS place and the live keys are still answered from the cache
+    for v in VARIANTS:
+        for l in (2, 3):
+            live = [{"o": "call", "r": 0, "form": distinct5[k + 1], "raise": False} for k in range(l - 1)]
+            old_ = {"o": "call", "r": 0, "form": distinct5[0], "raise": False}
+            fresh = {"o": "call", "r": 0, "form": distinct5[4], "raise": False}
+            for rehit in (True, False):
+                for tail in ([fresh, *live], [fresh, *reversed(live)], [*live, fresh, *live]):
+                    yield {"variant": v, "limit": l, "exp": 2.5, "ops": [old_, {"o": "adv", "dt": 1.5}, *live, *([old_] if rehit else []), {"o": "adv", "dt": 1.5},
+                                                                       dict(old_, **{"raise": True}), *tail]}  # fmt: skip
     # a second cached function / second cached method (same decorator object, same arguments) called in between
     for v in VARIANTS:
         for l in (1, 2):
